@@ -55,6 +55,12 @@ func (c11) Gen(rng *rand.Rand, tier string, i int) *sim.Scenario {
 		// all runs of one protocol towards one target
 		variants = []Variant{pick(rng, variants[:6]...)}
 	}
+	// runs asking for the whole TTL range (last TTL 255): identifier blocks are sized from the last TTL
+	whole := chance(rng, 0.06)
+	if whole {
+		variants = []Variant{{Entry: "tcp"}, {Entry: "tcp"}, {Entry: "icmp"}, {Entry: "udp"}}
+		n = between(rng, 2, 3)
+	}
 	var runs []*wireRun
 	for k := 0; k < n; k++ {
 		o := &wireOpts{variants: variants, silentProb: 0.25, noDest: 0.2, wellTimed: true, overtake: true}
@@ -78,6 +84,15 @@ func (c11) Gen(rng *rand.Rand, tier string, i int) *sim.Scenario {
 		c.StartUs = int64(pick(rng, 0, 0, 0, between(rng, 1, 60000)))
 		if c.MaxTTL-c.MinTTL > 6 {
 			c.MaxTTL = c.MinTTL + 6
+		}
+		if whole {
+			if wr.dest == 0 && wr.v.Entry == "tcp" {
+				c.TimeoutMs = 300 // 250 unanswered TTLs in the serial engine
+			}
+			c.MaxTTL = 255
+			if c.DelayMs > 5 {
+				c.DelayMs = 5
+			}
 		}
 		if wr.v.Entry == "tcp" {
 			lim := int64(c.TimeoutMs-100)*1000 - 1000
